@@ -1,6 +1,7 @@
 import Gk.DrvRepo
 import Gk.DrvHook
 import Gk.DrvMut
+import Gk.DrvCron
 open Gk
 
 /-- `gkdriver <family>`: reads trace lines on stdin, prints `L<n> DIFF …` / `L<n> MON …` lines and a
@@ -50,10 +51,26 @@ partial def loopMut (h : IO.FS.Stream) (s : DrvMut.S) (n hist nt bad : Nat) : IO
     for o in outs do IO.println s!"L{n + 1} {o}"
     loopMut h s' (n + 1) hist nt (bad + outs.length)
 
+partial def loopCron (h : IO.FS.Stream) (s : DrvCron.S) (n hist nt bad : Nat) : IO Unit := do
+  let line ← h.getLine
+  if line.isEmpty then
+    IO.println s!"SUMMARY family=cron lines={n} histories={hist} nontrivial={nt} ops={s.ops} flagged={bad}"
+    return
+  let toks := Proto.tokens line
+  match toks with
+  | [] => loopCron h s (n + 1) hist nt bad
+  | ["end"] => loopCron h s (n + 1) (hist + 1) (nt + (if s.nontrivial then 1 else 0)) bad
+  | _ =>
+    let (req, resp) := Proto.splitArrow toks
+    let (s', outs) := DrvCron.stepLine s req resp
+    for o in outs do IO.println s!"L{n + 1} {o}"
+    loopCron h s' (n + 1) hist nt (bad + outs.length)
+
 def main (args : List String) : IO UInt32 := do
   let stdin ← IO.getStdin
   match args with
   | ["repo"] => loopRepo stdin {} 0 0 0 0; return 0
   | ["hook"] => loopHook stdin {} 0 0 0 0; return 0
   | ["mut"] => loopMut stdin {} 0 0 0 0; return 0
+  | ["cron"] => loopCron stdin {} 0 0 0 0; return 0
   | _ => IO.eprintln "usage: gkdriver repo"; return 2
